@@ -136,7 +136,53 @@ def corpus_programs(start_idx):
         P.main = m
         P.features.add("corpus:recover-runtime-error-type")
         P.seed = "corpus-c%d" % n
+        P.known_key = ["recover:runtime-error-value-is-string", "recover:type-assertion-panic-value-is-string"][n]
         out.append(P)
+    # c2: `for i, v := range arr` over an ARRAY VALUE iterates over a copy made before the loop
+    idx = start_idx + 2
+    P = Program(idx)
+    m = Func("P%dMain" % idx, 4)
+    AT = ("arr", 3, INT)
+    arr, i, v = Var(P.slot(), "arr", AT), Var(P.slot(), "i", INT), Var(P.slot(), "v", INT)
+    m.body = [Decl([arr], [SeqLit(AT, [IntLit(INT, 1), IntLit(INT, 2), IntLit(INT, 3)])]),
+              RangeSeq("", i, v, VarRef(arr), [Assign([Index(VarRef(arr), IntLit(INT, 2))], [Bin("add", IntLit(INT, 100), VarRef(i))]),
+                                               Assign([Index(VarRef(arr), IntLit(INT, 1))], [IntLit(INT, 50)]),
+                                               Print(False, [VarRef(i), StrLit(b":"), VarRef(v), StrLit(b" ")])]),
+              Print(True, [Index(VarRef(arr), IntLit(INT, 1)), Index(VarRef(arr), IntLit(INT, 2))])]
+    P.add_func(m)
+    P.main = m
+    P.features.add("corpus:range-array-copy")
+    P.seed, P.known_key = "corpus-c2", "range:array-value-aliased-by-value-loop"
+    out.append(P)
+    # c3: a named func type and its underlying func type are different dynamic types
+    idx = start_idx + 3
+    P = Program(idx)
+    fty = P.sig([], [INT])
+    d = TypeDecl("P%dFn" % idx, "basic", 4)
+    d.under = fty
+    P.add_type(d)
+    one = Func("P%dOne" % idx, 4)
+    one.results = [Var(P.slot(), "r", INT)]
+    one.body = [Return([IntLit(INT, 1)])]
+    P.add_func(one)
+    m = Func("P%dMain" % idx, 4)
+    x, y = Var(P.slot(), "x", "any"), Var(P.slot(), "y", "any")
+
+    def sw(e):
+        return TypeSwitch("", None, VarRef(e), [TCase([fty], [Print(True, [StrLit(b"func() int")])]),
+                                                  TCase([("named", d)], [Print(True, [StrLit(b"named Fn")])]),
+                                                  TCase([], [Print(True, [StrLit(b"other")])], default=True)])
+    ok1, ok2 = Var(P.slot(), "ok", BOOL), Var(P.slot(), "ok", BOOL)
+    t1, t2 = Var(P.slot(), "t", fty), Var(P.slot(), "t", ("named", d))
+    m.body = [Decl([x], [ToIface("any", ConvNamed(("named", d), FuncRef(one, fty)))]), Decl([y], [ToIface("any", FuncRef(one, fty))]),
+              sw(x), sw(y),
+              Decl([t1, ok1], [Assert(VarRef(x), fty, True)]), Decl([t2, ok2], [Assert(VarRef(y), ("named", d), True)]),
+              Print(True, [VarRef(ok1), VarRef(ok2)])]
+    P.add_func(m)
+    P.main = m
+    P.features.add("corpus:named-func-type-identity")
+    P.seed, P.known_key = "corpus-c3", "typeswitch:named-func-type-identified-with-underlying"
+    out.append(P)
     return out
 
 
@@ -567,7 +613,7 @@ def run_check(ctx, args):
 
 
 def report_disagreement(ctx, bench, P, npk, opt, got, want):
-    cls = classify(got, want)
+    cls = getattr(P, "known_key", None) or classify(got, want)
     diff = first_diff(got, want)
     if cls and ctx.match_known(cls):
         ctx.report(cls, diff, {})
